@@ -93,6 +93,7 @@ func Call(ctx context.Context, r compose.Runnable[V, V], para string, in V, chun
 				o.Err = err
 				return
 			}
+			lag(ctx)
 			o.Out, o.Chunks, o.Err = ReadAll(sr)
 			o.ErrAsItem = o.Err != nil
 		case "C":
@@ -103,6 +104,7 @@ func Call(ctx context.Context, r compose.Runnable[V, V], para string, in V, chun
 				o.Err = err
 				return
 			}
+			lag(ctx)
 			o.Out, o.Chunks, o.Err = ReadAll(sr)
 			o.ErrAsItem = o.Err != nil
 		default:
@@ -111,6 +113,13 @@ func Call(ctx context.Context, r compose.Runnable[V, V], para string, in V, chun
 	})
 	o.Panic = p
 	return o
+}
+
+// lag implements RunCtl.LagReader.
+func lag(ctx context.Context) {
+	if c := CtlFrom(ctx); c != nil && c.LagReader {
+		mon.SettleIgnoring(3, 400, "mon.WaitDone")
+	}
 }
 
 // IsMaxSteps recognises the step-limit error by errors.Is or, failing that, by message
